@@ -90,7 +90,6 @@ func execC04Remote(a c04Args) CaseOut {
 	os.MkdirAll(dir1, 0o700)
 	os.MkdirAll(dir2, 0o700)
 	defer killStrayRunners(dir)
-	port := freePort()
 	gates := filepath.Join(dir, "gates")
 	os.MkdirAll(gates, 0o700)
 	env2 := []string{}
@@ -98,12 +97,9 @@ func execC04Remote(a c04Args) CaseOut {
 		env2 = append(env2, "VERIF_GATE_DIR="+gates)
 		os.WriteFile(filepath.Join(gates, "daemon."+a.Gate+".wait"), nil, 0o600)
 	}
-	d2, err := startDaemon(dir2, "n2", env2, "--tcp-listener", fmt.Sprintf("port=%d", port), "bindaddr=127.0.0.1")
+	d2, port, err := startDaemonListening(dir2, "n2", env2)
 	if err != nil {
 		out.violate("harness:c04-daemon", "n2: %v", err)
-		if d2 != nil {
-			d2.kill()
-		}
 		return out
 	}
 	defer d2.kill()
